@@ -82,7 +82,9 @@ def judge_pair(name, g, w, check_output):
             atoms.append({'sig': 'rel:raises:' + type(ex).__name__, 'msg': '%r %r %r: %r' % (g, w, fl, ex)})
             return atoms, False
         res.append(a)
-        b = matchref.matches(g, w, fl)
+        b = matchref.matches3(g, w, fl)
+        if b is None:
+            continue          # the two readings of "string-prefix letter" disagree on this pair: not judged
         if a != b:
             on = [f for f in FLAGS if fl[f]]
             kind = 'false-match' if a else 'false-mismatch'
@@ -230,4 +232,4 @@ def specs(tier):
         return [RelSpec('W<=4x4', 'W', 4, 4), RelSpec('Q<=4x4', 'Q', 4, 4), RelSpec('M<=4x4', 'M', 4, 4),
                 RelSpec('E<=5x6', 'E', 5, 6), E2ERelSpec()]
     return [RelSpec('W<=4x3', 'W', 4, 3), RelSpec('W<=3x4', 'W', 3, 4, only_new=(3, 3)),
-            RelSpec('Q<=3x3', 'Q', 3, 3), RelSpec('M<=3x3', 'M', 3, 3), RelSpec('E<=3x5', 'E', 3, 5), E2ERelSpec()]
+            RelSpec('Q<=3x3', 'Q', 3, 3), RelSpec('Q<=2x4', 'Q', 2, 4, only_new=(2, 3)), RelSpec('M<=3x3', 'M', 3, 3), RelSpec('E<=3x5', 'E', 3, 5), E2ERelSpec()]
